@@ -78,14 +78,22 @@ impl TargetActorHelper {
     pub async fn notify_execution_failed(&mut self, e: Error) {
         self.executed = false;
         let msg = TargetActorOutputMessage::TargetExecutionError(self.target_id.clone(), e);
+        #[cfg(zinoma_verif)]
+        crate::verif::before_send(&self.target_id).await;
         let _ = self.target_actor_output_sender.send(msg).await;
+        #[cfg(zinoma_verif)]
+        crate::verif::after_send(&self.target_id);
     }
 
     pub async fn send_to_actor(&self, dest: ActorId, msg: ActorInputMessage) {
+        #[cfg(zinoma_verif)]
+        crate::verif::before_send(&self.target_id).await;
         let _ = self
             .target_actor_output_sender
             .send(TargetActorOutputMessage::MessageActor { dest, msg })
             .await;
+        #[cfg(zinoma_verif)]
+        crate::verif::after_send(&self.target_id);
     }
 
     pub async fn send_to_dependencies(&self, msg: ActorInputMessage) {
@@ -96,6 +104,14 @@ impl TargetActorHelper {
     }
 
     pub async fn send_to_requesters(&self, kind: ExecutionKind, msg: ActorInputMessage) {
+        #[cfg(zinoma_verif)]
+        if crate::verif::world().is_some() {
+            let requesters = self.requesters[&kind].iter().cloned().collect();
+            for requester in crate::verif::ordered(&self.target_id, requesters) {
+                self.send_to_actor(requester, msg.clone()).await
+            }
+            return;
+        }
         for requester in &self.requesters[&kind] {
             self.send_to_actor(requester.clone(), msg.clone()).await
         }
